@@ -54,10 +54,28 @@ func defaultGhost(st *State, key string) Value {
 				"kind": App(nm+".kind", SInt, i), "a": App(nm+".a", SStr, i), "b": App(nm+".b", SStr, i),
 				"n": App(nm+".n", SInt, i), "h": App(nm+".h", SInt, i)}}
 		}}
+	case strings.HasPrefix(key, "refused:"):
+		return Var(fmt.Sprintf("refused%d:%s", ep, key[8:]), SInt)
 	case strings.HasPrefix(key, "lock:"):
 		return False
 	}
 	return nil
+}
+
+// refusedLval: ghost counter of the writes on w that returned an error (the connection / writer refused bytes).
+func (ec *evalCtx) refusedLval(w Value) lval {
+	key := "refused:" + writerKey(ec, w)
+	return lval{
+		get: func() Value {
+			if v, ok := ec.st.ghost[key]; ok {
+				return v
+			}
+			v := defaultGhost(ec.st, key)
+			ec.st.ghost[key] = v
+			return v
+		},
+		set: func(v Value) { ec.st.ghost[key] = v },
+	}
 }
 
 func (ec *evalCtx) noteFailure(errNonNil *Term) {
@@ -133,6 +151,8 @@ func (ec *evalCtx) ghostWrite(w Value, content *Term) (n, err *Term) {
 	accepted := Ite(Eq(err, Int(0)), content, Substr(content, Int(0), n))
 	lv.set(Concat(scalar(lv.get()), accepted))
 	ec.noteFailure(Not(Eq(err, Int(0))))
+	rl := ec.refusedLval(w)
+	rl.set(Add(scalar(rl.get()), Ite(Eq(err, Int(0)), Int(0), Int(1))))
 	ec.e().trusted["writer contract: an io.Writer accepts a prefix of each write, and all of it iff it returns a nil error"] = true
 	return n, err
 }
@@ -324,6 +344,8 @@ func (ec *evalCtx) ghostLvalOf(e ast.Expr) (lval, bool) {
 			switch id.Name {
 			case "out":
 				return ec.outLval(ec.eval(x.Args[0])), true
+			case "refused":
+				return ec.refusedLval(ec.eval(x.Args[0])), true
 			case "tr":
 				return ec.traceLval(ec.eval(x.Args[0])), true
 			case "in":
@@ -363,6 +385,13 @@ func (ec *evalCtx) havocGhost(e ast.Expr) bool {
 	lv, ok := ec.ghostLvalOf(e)
 	if !ok {
 		return false
+	}
+	if call, ok := e.(*ast.CallExpr); ok && exprString(call.Fun) == "out" && len(call.Args) == 1 {
+		// a callee that may write to w may be refused bytes
+		rl := ec.refusedLval(ec.eval(call.Args[0]))
+		nv := Var(ec.e().fresher.name("ghost.refused"), SInt)
+		ec.st.Assume(Ge(nv, scalar(rl.get())))
+		rl.set(nv)
 	}
 	switch cur := lv.get().(type) {
 	case *Term:
